@@ -57,6 +57,15 @@ func (h *VHist) vApplyImpl(op VOp) error {
 	case "batch", "txn":
 		_, err := h.applyWriteImpl(op)
 		return err
+	case "setns":
+		// the documented way to change a dataset's public namespaces: write its meta-entity into core.Dataset
+		info, _ := h.W.Store.NamespaceManager.GetDatasetNamespaceInfo()
+		meta, err := h.W.Store.GetEntity(info.DatasetPrefix+":"+h.DsName(op.DS), []string{datasetCore}, true)
+		if err != nil || meta == nil {
+			return fmt.Errorf("meta-entity of %s not found: %v", op.DS, err)
+		}
+		meta.Properties[info.PublicNamespacesKey] = []string{fmt.Sprintf("http://pub%d.example/", op.N)}
+		return h.W.Dsm.GetDataset(datasetCore).StoreEntities([]*Entity{meta})
 	case "badbatch":
 		// a batch the store has to reject as a whole: its last entity carries a null reference value
 		ds := h.W.Dsm.GetDataset(h.DsName(op.DS))
